@@ -12,7 +12,7 @@ import gram
 from impl import trees, treeoutput, treeinput, treeanalysis, quiet, clone
 
 ID = "C03"
-MODULE = ['TT.Props.C03', 'TT.Props.C03Own', 'TT.Props.C03Options', 'TT.Props.C03Run', 'TT.Props.C03Run2', 'TT.Props.C03Total', 'TT.Props.C03Chain', 'TT.Props.C18Src', 'TT.Props.C03Words']
+MODULE = ['TT.Props.C03', 'TT.Props.C03Own', 'TT.Props.C03Options', 'TT.Props.C03Run', 'TT.Props.C03Run2', 'TT.Props.C03Total', 'TT.Props.C03Chain', 'TT.Props.C18Src', 'TT.Props.C03Words', 'TT.Props.C03Cmd']
 RULE = ("`treetools transform` on generated treebanks (1..4 sentences) for all 4x5 (source, destination) format pairs, "
         "A->B->A chains, own-format round trips, encodings utf-8 / latin-1 / utf-16 on either side, gzip sources, "
         "directory sources, export v3/v4. The destination is decoded by the specification decoder and compared with "
@@ -260,6 +260,9 @@ def gen(seed, tier, scale):
     rngs = [case_rng(seed, ID, 700000 + i) for i in range(nw)]
     for i, c in enumerate(cli.pmap(srccases.words_case, rngs)):
         yield 700000 + i, c
+    rngs = [case_rng(seed, ID, 780000 + i) for i in range(nw)]
+    for i, c in enumerate(cli.pmap(srccases.cmd_case, rngs)):
+        yield 780000 + i, c
     rngs = [case_rng(seed, ID, 750000 + i) for i in range(nw)]
     for i, c in enumerate(cli.pmap(srccases.dest_words_case, rngs)):
         yield 750000 + i, c
